@@ -73,6 +73,9 @@ Table(kc, w) == Arr([i \in 1..Len(kc) |-> [j \in 1..w |-> IF j = 1 THEN kc[i] EL
 \* numbers that agree in their first nine digits are different keys (1999999998 / 1999999999 / 2000000000)
 KN == {Whole(1999999998), Whole(1999999999), Whole(2000000000)}
 
+\* numbers whose doubles take 16 or 17 digits to write down: a key or a criterion is the number, not a rendering of it
+KF == {Rat(1, 3), Rat(2, 3), Rat(3, 10), Rat(1, 7)}
+
 Triples == {<<Txt(<<a_>>), Whole(2), Bool(TRUE)>>, <<Whole(10), Whole(20), Whole(30)>>,
             <<Txt(abc), Txt(<<b_>>), Rat(1, 2)>>}
 
@@ -109,6 +112,9 @@ InitCase ==
   \/ \E k \in 1..3 : \E c \in [1..k -> KN], key \in KN : case = C("MATCH", <<key, ColArr(c), Whole(0)>>)
   \/ \E kc \in [1..2 -> KN], key \in KN, ci \in 1..2 : case = C("VLOOKUP", <<key, Table(kc, 2), Whole(ci), Bool(FALSE)>>)
   \/ \E c \in [1..2 -> KN], key \in KN : case = C("COUNTIF", <<ColArr(c), key>>)
+  \/ \E c \in [1..2 -> KF], key \in KF : \/ case = C("COUNTIF", <<ColArr(c), key>>)
+                                          \/ case = C("MATCH", <<key, ColArr(c), Whole(0)>>)
+                                          \/ case = C("COUNTIFS", <<ColArr(c), key, ColArr(c), Txt(<<62, 48>>)>>)
   \* --- MATCH approximate (match_type 1 or omitted) on ascending data
   \/ \E k \in 1..MaxAsc : \E c \in [1..k -> NV], key \in NK :
         /\ Ascending(c)
